@@ -245,6 +245,105 @@ fn intercept_hold(d: i32, hop_delta: u32, step: u32, n_deliv: u32) -> Result<(u3
 	Ok((in_cltv, out_cltv, deliv, fail_h))
 }
 
+/// (round 6) A -> B -> [B's intercept SCID], with a real channel B-C: B holds the intercepted HTLC for `n_hold` deliveries of
+/// `step` blocks, then the user RELEASES it (`forward_intercepted_htlc` towards C). With `d - n_hold*step == 1` that is the
+/// LAST height at which the HTLC is still held; with `<= 0` the node has already given it up and the release must be refused.
+/// After a successful release the HTLC is fully committed downstream (C takes part in the commitment dance, then goes
+/// silent) and heights keep arriving at B `step_after` at a time. Returns (inCltv, outCltv, B's best height at interception,
+/// event tokens for the model (`b:<h>:plain:0:0` | `r` | `d`), the impl's action log (`<h>:icpt <h>:fail` | `<h>:down` |
+/// `<h>:timeout` | `<h>:fail`), whether the release was accepted, the heights delivered after the release).
+fn intercept_release(d: i32, step: u32, n_hold: u32, step_after: u32) -> Result<(u32, u32, u32, Vec<String>, Vec<String>, bool, Vec<u32>), String> {
+	use ldk_verif_harness::sim::leak;
+	use lightning::ln::functional_test_utils::*;
+	use lightning::ln::channelmanager::PaymentId;
+	use lightning::ln::msgs::{BaseMessageHandler, ChannelMessageHandler};
+	use lightning::events::{Event, HTLCHandlingFailureType};
+	use lightning::util::config::HTLCInterceptionFlags;
+	let fbb = lightning::chain::channelmonitor::HTLC_FAIL_BACK_BUFFER as i32;
+	let grace = vh::consts::LATENCY_GRACE_PERIOD_BLOCKS as u32;
+	let mut bcfg = test_legacy_channel_config();
+	bcfg.htlc_interception_flags = HTLCInterceptionFlags::ToInterceptSCIDs as u8;
+	let chanmon_cfgs = leak(create_chanmon_cfgs(3));
+	let node_cfgs = leak(create_node_cfgs(3, chanmon_cfgs));
+	let node_chanmgrs = leak(create_node_chanmgrs(3, node_cfgs, &[Some(test_legacy_channel_config()), Some(bcfg), Some(test_legacy_channel_config())]));
+	let nodes = create_network(3, node_cfgs, node_chanmgrs);
+	let ids: Vec<PublicKey> = nodes.iter().map(|n| n.node.get_our_node_id()).collect();
+	create_announced_chan_between_nodes(&nodes, 0, 1);
+	let chan_bc = create_announced_chan_between_nodes(&nodes, 1, 2).2;
+	let maxh = nodes.iter().map(|n| n.best_block_info().1).max().unwrap();
+	for n in &nodes { let dd = maxh - n.best_block_info().1; if dd > 0 { connect_blocks(n, dd); } }
+	let amt = 100_000u64;
+	let intercept_scid = nodes[1].node.get_intercept_scid();
+	let (mut route, hash, _, secret) = lightning::get_route_and_payment_hash!(nodes[0], nodes[2], amt);
+	if route.paths[0].hops.len() != 2 { std::mem::forget(nodes); return Err("route shape".into()); }
+	let final_delta = fbb + d - 1; // out = best + 1 + final_delta = best + fbb + d
+	if final_delta < 0 { std::mem::forget(nodes); return Err("d too small".into()); }
+	route.paths[0].hops[1].short_channel_id = intercept_scid;
+	route.paths[0].hops[0].cltv_expiry_delta = MIN_CLTV_EXPIRY_DELTA as u32;
+	route.paths[0].hops[1].cltv_expiry_delta = final_delta as u32;
+	nodes[0].node.send_payment_with_route(route, hash, RecipientOnionFields::secret_only(secret, amt), PaymentId(hash.0)).map_err(|e| format!("send {:?}", e))?;
+	check_added_monitors(&nodes[0], 1);
+	let upd = get_htlc_update_msgs(&nodes[0], &ids[1]);
+	let in_cltv = upd.update_add_htlcs[0].cltv_expiry;
+	nodes[1].node.handle_update_add_htlc(ids[0], &upd.update_add_htlcs[0]);
+	do_commitment_signed_dance(&nodes[1], &nodes[0], &upd.commitment_signed, false, true);
+	expect_and_process_pending_htlcs(&nodes[1], false);
+	let evs = nodes[1].node.get_and_clear_pending_events();
+	let mut icpt = None;
+	for e in &evs { if let Event::HTLCIntercepted { outgoing_htlc_expiry_block_height, intercept_id, expected_outbound_amount_msat, .. } = e { icpt = Some(((*outgoing_htlc_expiry_block_height).unwrap_or(0), *intercept_id, *expected_outbound_amount_msat)); } }
+	let (out_cltv, intercept_id, out_amt) = match icpt { Some(o) => o, None => { std::mem::forget(nodes); return Err(format!("not intercepted (d={} events {})", d, evs.len())); } };
+	let best0 = nodes[1].best_block_info().1;
+	let mut toks: Vec<String> = vec![]; let mut log: Vec<String> = vec![];
+	*nodes[1].connect_style.borrow_mut() = if step > 1 { ConnectStyle::BestBlockFirstSkippingBlocks } else { ConnectStyle::BestBlockFirst };
+	let mut timed_out = false;
+	for _ in 0..n_hold {
+		connect_blocks(&nodes[1], step);
+		let h = nodes[1].best_block_info().1; toks.push(format!("b:{}:plain:0:0", h));
+		let evs = nodes[1].node.get_and_clear_pending_events();
+		let failed = evs.iter().any(|e| matches!(e, Event::HTLCHandlingFailed { failure_type: HTLCHandlingFailureType::InvalidForward { requested_forward_scid }, .. } if *requested_forward_scid == intercept_scid));
+		if failed && !timed_out { timed_out = true; log.push(format!("{}:icpt", h)); log.push(format!("{}:fail", h)); }
+	}
+	if timed_out {
+		// the fail-back towards A: let the manager produce it, drop the messages (A's answer does not matter here)
+		if nodes[1].node.needs_pending_htlc_processing() { nodes[1].node.process_pending_htlc_forwards(); }
+		let _ = nodes[1].node.get_and_clear_pending_msg_events();
+		nodes[1].chain_monitor.added_monitors.lock().unwrap().clear();
+	}
+	let released = nodes[1].node.forward_intercepted_htlc(intercept_id, &chan_bc, ids[2], out_amt).is_ok();
+	toks.push("r".into());
+	let mut after = vec![];
+	if released {
+		expect_and_process_pending_htlcs(&nodes[1], false);
+		nodes[1].chain_monitor.added_monitors.lock().unwrap().clear();
+		let mut msgs = nodes[1].node.get_and_clear_pending_msg_events();
+		if msgs.len() != 1 { std::mem::forget(nodes); return Err(format!("B produced {} messages instead of the one forward after the release", msgs.len())); }
+		let ev = SendEvent::from_event(msgs.remove(0));
+		if ev.msgs.len() != 1 || ev.msgs[0].cltv_expiry != out_cltv { std::mem::forget(nodes); return Err(format!("released forward carries expiry {:?}, announced {}", ev.msgs.get(0).map(|m| m.cltv_expiry), out_cltv)); }
+		nodes[2].node.handle_update_add_htlc(ids[1], &ev.msgs[0]);
+		do_commitment_signed_dance(&nodes[2], &nodes[1], &ev.commitment_msg, false, true);
+		toks.push("d".into());
+	}
+	let seen0 = nodes[1].tx_broadcaster.txn_broadcasted.lock().unwrap().len();
+	*nodes[1].connect_style.borrow_mut() = if step_after > 1 { ConnectStyle::BestBlockFirstSkippingBlocks } else { ConnectStyle::BestBlockFirst };
+	let n_after = if released { (out_cltv + grace + 4).saturating_sub(nodes[1].best_block_info().1) / step_after + 2 } else { 3 };
+	for _ in 0..n_after {
+		connect_blocks(&nodes[1], step_after);
+		let h = nodes[1].best_block_info().1; toks.push(format!("b:{}:plain:0:0", h)); after.push(h);
+		let mut evs = nodes[1].node.get_and_clear_pending_events(); evs.extend(nodes[1].node.get_and_clear_pending_events());
+		if evs.iter().any(|e| matches!(e, Event::HTLCHandlingFailed { .. })) { log.push(format!("{}:fail", h)); }
+		let txs: Vec<bitcoin::Transaction> = nodes[1].tx_broadcaster.txn_broadcasted.lock().unwrap()[seen0..].to_vec();
+		if !txs.is_empty() {
+			log.push(format!("{}:down", h));
+			break;
+		}
+	}
+	let _ = nodes[1].node.get_and_clear_pending_msg_events(); let _ = nodes[2].node.get_and_clear_pending_msg_events();
+	let _ = nodes[2].node.get_and_clear_pending_events();
+	for n in nodes.iter() { n.chain_monitor.added_monitors.lock().unwrap().clear(); }
+	std::mem::forget(nodes);
+	Ok((in_cltv, out_cltv, best0, toks, log, released, after))
+}
+
 /// (round 5) A -> B -> C where C never answers B's update_add_htlc / commitment_signed: the forwarded HTLC is in C's
 /// (the counterparty's) CURRENT commitment only, never in B's holder commitment. Blocks are delivered to B `step` at a
 /// time. Returns (outCltv, every height delivered to B, height at which B's monitor put a transaction on the wire).
@@ -601,6 +700,39 @@ fn main() {
 				},
 				Ok(Err(e)) => { rec.discarded += 1; rec.notes.insert(format!("intercept_hold d={} step={}", d, step), e); },
 				Err(p) => rec.oracle_fail(format!("intercept-hold scenario d={} step={} panicked: {}", d, step, p.chars().take(300).collect::<String>())),
+			}
+		}
+	}
+	// (7b) round 6: RELEASE of a held intercepted HTLC (forward_intercepted_htlc has no height test of its own: the safety of a late
+	// release rests on the intercepted-HTLC timeout having run first). Released at the LAST held height (margin 1), earlier, by a
+	// jump, and after the node gave the HTLC up (must be refused). Model op: `noderel <in> <out> <best> b:… r d b:…` -> whole action log
+	// of NodeStep.run (mgrIntercept / .released / .downCommitted / monScan / monClaims).
+	{
+		// (d, step while held, deliveries while held, step after the release); margin at the release = d - step*n_hold
+		let plans: Vec<(i32, u32, u32, u32)> = if args.thorough {
+			vec![(2, 1, 1, 1), (3, 1, 2, 1), (1, 1, 1, 1), (2, 1, 2, 1), (4, 2, 1, 3), (6, 5, 1, 2), (2, 1, 0, 1), (5, 1, 4, 7), (3, 3, 1, 1), (7, 3, 2, 5), (4, 1, 3, 43), (9, 4, 2, 1)]
+		} else { vec![(2, 1, 1, 1), (1, 1, 1, 1), (6, 5, 1, 3), (3, 1, 2, 4), (2, 1, 2, 1)] };
+		for (d, step, n_hold, step_after) in plans {
+			match guarded(std::panic::AssertUnwindSafe(move || intercept_release(d, step, n_hold, step_after))) {
+				Ok(Ok((in_cltv, out_cltv, best0, toks, log, released, after))) => {
+					let margin = d - (step * n_hold) as i32;
+					// impl oracles (independent of the model)
+					let gave_up = log.iter().any(|e| e.ends_with(":icpt"));
+					if released == gave_up { rec.oracle_fail(format!("intercepted HTLC (outgoing expiry {}, margin at release {}): forward_intercepted_htlc accepted={} although the node {} given the HTLC up before [d={} step={} n_hold={}]", out_cltv, margin, released, if gave_up { "had" } else { "had not" }, d, step, n_hold)); }
+					if (margin >= 1) != released { rec.oracle_fail(format!("intercepted HTLC (outgoing expiry {}): release at best height {} (margin {} to out - HTLC_FAIL_BACK_BUFFER) accepted={} [d={} step={} n_hold={}]", out_cltv, best0 + step * n_hold, margin, released, d, step, n_hold)); }
+					if released {
+						let first = after.iter().copied().find(|h| *h >= out_cltv + grace as u32);
+						let down = log.iter().find(|e| e.ends_with(":down")).map(|e| e.split(':').next().unwrap().parse::<u32>().unwrap());
+						if down != first { rec.oracle_fail(format!("HTLC released from interception at height {} (outgoing expiry {}, margin {}): B went on chain downstream at {:?}, first delivered height >= expiry + grace is {:?} (delivered {:?})", best0 + step * n_hold, out_cltv, margin, down, first, after)); }
+						if let Some(f) = log.iter().find(|e| e.ends_with(":fail")) { rec.oracle_fail(format!("HTLC released from interception at height {} (outgoing expiry {}, inbound expiry {}, margin {}) was failed back upstream ({}) although the downstream HTLC-timeout was never mined", best0 + step * n_hold, out_cltv, in_cltv, margin, f)); }
+						if out_cltv + (MIN_CLTV_EXPIRY_DELTA as u32) > in_cltv { rec.oracle_fail(format!("released intercepted HTLC: outgoing expiry {} + MIN_CLTV_EXPIRY_DELTA exceeds the inbound expiry {}", out_cltv, in_cltv)); }
+					}
+					let op = format!("noderel {} {} {} {}", in_cltv, out_cltv, best0, toks.join(" "));
+					let class = format!("e2e:intercept-release {} margin={}", if released { "released" } else { "refused" }, margin.max(-1).min(3));
+					rec.case(&op, &if log.is_empty() { "-".to_string() } else { log.join(" ") }, &class, true);
+				},
+				Ok(Err(e)) => { rec.discarded += 1; rec.notes.insert(format!("intercept_release d={} step={} n_hold={}", d, step, n_hold), e); },
+				Err(p) => rec.oracle_fail(format!("intercept-release scenario d={} step={} n_hold={} panicked: {}", d, step, n_hold, p.chars().take(300).collect::<String>())),
 			}
 		}
 	}
